@@ -272,6 +272,16 @@ def eigen_case(ctx, rng, idx):
     import hypergraphx as hgx
     from hypergraphx.measures import eigen_centralities as ec
 
+    if idx == 3 or (ctx.tier == "thorough" and idx % 800 == 15):
+        # one pair of nodes sharing 256+ hyperedges (4-uniform: {0, 1, a, b} for all a < b): co-membership counts beyond
+        # what a byte holds; the eigen-equations are stated for the true clique-expansion matrix
+        import itertools as _it
+
+        ctx.event("pair-in-276-hyperedges")
+        N = 26
+        h = hgx.Hypergraph([(0, 1, a, b) for a, b in _it.combinations(range(2, N), 2)])
+        eigen_eval(ctx, rng, idx, h, 4, N)
+        return
     k = rng.choice([3, 4])
     N = rng.randint(k, 9)
     nodes = list(range(N))
